@@ -25,7 +25,7 @@ def run(tier, seed):
     res = run_tlc("MC_Fuzz", "MC_Fuzz", workdir=chk.dir, env={"MAXLEN": maxlen}, timeout=1800)
     chk.add_tlc(res)
     texts = sorted({fuzz.text_of(r["s"]) for r in res.records})
-    if len(texts) != sum(10 ** k for k in range(maxlen + 1)):
+    if len(texts) != sum(11 ** k for k in range(maxlen + 1)):
         raise MachineryError(f"expected all strings up to length {maxlen}, got {len(texts)}")
     url_sizes = [(1, 1), (2, 2), (3, 1), (1, 3), (2, 3)] if tier == "quick" else [(h, w) for h in (1, 2, 3) for w in (1, 2, 3)]
     comb_sizes = [(1, 1), (2, 2), (0, 2), (1, 3)] if tier == "quick" else [(h, w) for h in (0, 1, 2, 3) for w in (0, 1, 2, 3)]
@@ -85,10 +85,10 @@ def run(tier, seed):
     chk.extra["inputs_that_decoded_to_a_problem"] = problems
     chk.sample({"decoder": "nurikabe", "declared": [2, 2], "text": "5g-0f"[:4], "note": "one of the enumerated bodies"})
     chk.sample({"frame_mutilations": frame_mutilations("nurikabe")[:6]})
-    chk.rule = ("case = (decoder, declared size, text); texts = ALL strings up to the length bound over the 10-symbol alphabet; "
+    chk.rule = ("case = (decoder, declared size, text); texts = ALL strings up to the length bound over the 11-symbol alphabet; "
                 "non-trivial counted = inputs that decode to a problem (re-encoded and re-decoded) or raise")
     chk.exhaustive = True
-    chk.extra["space"] = f"all {len(texts)} strings of length <= {maxlen} over 0 5 f g z - + . / U+0663; 9 URL decoders + compass x board sizes; 15 library combinators x sizes (incl. zero) and every offset for strings <= 3; URL-frame mutilations; 60x60 / 1x400 / 400x1 boards"
+    chk.extra["space"] = f"all {len(texts)} strings of length <= {maxlen} over 0 1 5 f g z - + . / U+0663; 9 URL decoders + compass x board sizes; 15 library combinators x sizes (incl. zero) and every offset for strings <= 3; URL-frame mutilations; 60x60 / 1x400 / 400x1 boards"
     chk.assumptions = ["'arbitrary Unicode' is represented by one non-ASCII decimal digit in the alphabet and two non-ASCII letters in the frame mutilations",
                        "re-encoding is required only for boards with at least one cell; None and ValueError are classified by the harness (except ValueError), every other outcome is judged by TLC"]
     return chk.finish()
